@@ -73,12 +73,14 @@ class Reck:
         # Invert unitary so reck layout starts with fewest elements on mode 0
         unitary = np.flip(circuit.U, axis=(0, 1))
         phase_map, end_phases = reck_decomposition(unitary)
+        # The modulo is applied twice as for a very small negative value the
+        # first returns exactly 2*pi, which is outside of the range [0, 2*pi)
         phase_map = {
-            k: (v + self.error_model.get_phase_offset()) % (2 * np.pi)
+            k: (v + self.error_model.get_phase_offset()) % (2 * np.pi) % (2 * np.pi)
             for k, v in phase_map.items()
         }
         end_phases = [
-            (p + self.error_model.get_phase_offset()) % (2 * np.pi)
+            (p + self.error_model.get_phase_offset()) % (2 * np.pi) % (2 * np.pi)
             for p in end_phases
         ]
 
